@@ -426,3 +426,115 @@ Proof.
   { apply nth_indep. rewrite map_length, seq_length. exact H. }
   rewrite (map_nth (fun j => sumQ (col j rows))). rewrite seq_nth by exact H. reflexivity.
 Qed.
+
+(* ---------------------------------------------------------------------------------------- *)
+(* Throughput: closed form of any merge tree (merge adds num_total, takes max of elapsed; update adds) *)
+Fixpoint tp_elapsed (t : mtree tp_metric) : Qc :=
+  match t with
+  | Shard _ bs => sumQ (map snd bs)
+  | Merge _ t os post => fold_left qmax (map tp_elapsed os) (tp_elapsed t) + sumQ (map snd post)
+  end.
+Definition tp_total (t : mtree tp_metric) : Qc := sumQ (map fst (stream tp_metric t)).
+
+Lemma tp_updates : forall (bs : list (Qc * Qc)) s,
+  fold_left tp_upd bs s = (fst s + sumQ (map fst bs), snd s + sumQ (map snd bs)).
+Proof.
+  induction bs as [|b bs IH]; intros [n e]; cbn [fold_left map fst snd].
+  - rewrite !sumQ_nil. f_equal; ring.
+  - rewrite IH. unfold tp_upd. cbn [fst snd]. rewrite !sumQ_cons. f_equal; ring.
+Qed.
+Lemma tp_merges : forall (ms : list (Qc * Qc)) s,
+  fold_left tp_mrg1 ms s = (fst s + sumQ (map fst ms), fold_left qmax (map snd ms) (snd s)).
+Proof.
+  induction ms as [|m ms IH]; intros [n e]; cbn [fold_left map fst snd].
+  - rewrite sumQ_nil. f_equal; ring.
+  - rewrite IH. unfold tp_mrg1. cbn [fst snd]. rewrite sumQ_cons. f_equal; ring.
+Qed.
+Lemma throughput_tree : forall t : mtree tp_metric, run tp_metric tt t = (tp_total t, tp_elapsed t).
+Proof.
+  induction t as [bs|t os post IHt IHos] using (mtree_ind' tp_metric); unfold tp_total; cbn [run stream tp_elapsed].
+  - change (fold_left (upd tp_metric tt) bs (init tp_metric tt)) with (fold_left tp_upd bs (0, 0)).
+    rewrite tp_updates. cbn [fst snd]. f_equal; ring.
+  - change (fold_left (upd tp_metric tt) post ?s) with (fold_left tp_upd post s).
+    change (mrg tp_metric tt ?s ?ms) with (fold_left tp_mrg1 ms s).
+    rewrite tp_updates, tp_merges, IHt. cbn [fst snd].
+    assert (Hos : map fst (map (run tp_metric tt) os) = map tp_total os /\ map snd (map (run tp_metric tt) os) = map tp_elapsed os).
+    { clear -IHos. induction IHos as [|o os Ho _ IH]; [split; reflexivity|]. cbn [map]. rewrite Ho. cbn [fst snd].
+      destruct IH as [-> ->]. split; reflexivity. }
+    destruct Hos as [-> ->]. f_equal. rewrite !map_app, !sumQ_app.
+    assert (Hf : sumQ (map tp_total os) = sumQ (map fst (flat_map (stream tp_metric) os))).
+    { clear. induction os as [|o os IH]; [reflexivity|]. cbn [map flat_map]. rewrite map_app, sumQ_app, sumQ_cons, IH. reflexivity. }
+    rewrite Hf. unfold tp_total. symmetry. apply Qcplus_assoc.
+Qed.
+
+(* ---------------------------------------------------------------------------------------- *)
+(* PSNR / Perplexity / NE: the exact sufficient statistics *)
+Lemma psnr_updates_fixed r : forall bs s,
+  p_n (fold_left (p_upd (Some r)) bs s) = p_n s + sumQ (map (fun b => qofnat (List.length (snd b))) bs)
+  /\ p_sse (fold_left (p_upd (Some r)) bs s) = p_sse s + sumQ (map p_sse_of bs)
+  /\ p_dr (fold_left (p_upd (Some r)) bs s) = p_dr s.
+Proof.
+  induction bs as [|b bs IH]; intros s; cbn [fold_left map].
+  - rewrite !sumQ_nil. repeat split; ring.
+  - destruct (IH (p_upd (Some r) s b)) as [H1 [H2 H3]]. rewrite H1, H2, H3. unfold p_upd. cbn [p_auto p_n p_sse p_dr].
+    rewrite !sumQ_cons. repeat split; ring.
+Qed.
+Lemma psnr_updates_auto : forall bs s,
+  p_n (fold_left (p_upd None) bs s) = p_n s + sumQ (map (fun b => qofnat (List.length (snd b))) bs)
+  /\ p_sse (fold_left (p_upd None) bs s) = p_sse s + sumQ (map p_sse_of bs).
+Proof.
+  induction bs as [|b bs IH]; intros s; cbn [fold_left map].
+  - rewrite !sumQ_nil. split; ring.
+  - destruct (IH (p_upd None s b)) as [H1 H2]. rewrite H1, H2. unfold p_upd. cbn [p_auto p_n p_sse].
+    rewrite !sumQ_cons. split; ring.
+Qed.
+(* auto range: after an update the stored data_range is max_target - min_target, and those are the
+   running extrema of the targets *)
+Lemma psnr_auto_range s b : p_dr (p_upd None s b) = xsub (p_mx (p_upd None s b)) (p_mn (p_upd None s b))
+  /\ p_mx (p_upd None s b) = xmax (bmax (snd b)) (p_mx s) /\ p_mn (p_upd None s b) = xmin (bmin (snd b)) (p_mn s).
+Proof. unfold p_upd. cbn [p_auto p_dr p_mx p_mn]. repeat split. Qed.
+(* the argument of 10*log10 is data_range^2 / (sse / n) whenever everything is finite and positive *)
+Lemma psnr_ratio_fin dr sse n : n <> 0 -> sse <> 0 ->
+  psnr_ratio (Fin dr) sse n = Fin (dr * dr / (sse / n)).
+Proof.
+  intros Hn Hs. unfold psnr_ratio. cbn [xmul]. rewrite (qdivx_nz sse n Hn). cbn [xdivx]. apply xdivq_fin.
+  intro E. apply Hs. assert (sse = sse / n * n) as -> by (field; exact Hn). rewrite E. ring.
+Qed.
+
+(* Perplexity: ignore_index filters exactly the masked positions; the statistic is
+   (sum over kept positions of  ln(sum_j exp x_ij) - x_{i,t_i},  number of kept positions) *)
+Definition px_kept (ig : option Z) (rows : mat) (ts : list Z) : list (list Qc * Z) :=
+  filter (fun rt => negb (ignored ig (snd rt))) (combine rows ts).
+Lemma px_stat_spec ig : forall rows ts,
+  snd (px_stat ig rows ts) = qofnat (List.length (px_kept ig rows ts))
+  /\ f_k (fst (px_stat ig rows ts)) = sumQ (map (fun rt => - nth (Z.to_nat (snd rt)) (fst rt) 0) (px_kept ig rows ts))
+  /\ f_logs (fst (px_stat ig rows ts)) = map (fun rt => (1, sumexp (fst rt))) (px_kept ig rows ts).
+Proof.
+  induction rows as [|r rows IH]; intros [|t ts]; cbn [px_stat]; unfold px_kept; cbn [combine filter map List.length];
+    try (rewrite qofnat_0, sumQ_nil; repeat split; reflexivity).
+  destruct (IH ts) as [H1 [H2 H3]]. fold (px_kept ig rows ts). cbn [snd]. destruct (ignored ig t); cbn [negb].
+  - repeat split; assumption.
+  - cbn [fst snd map fadd px_term f_k f_logs List.length]. rewrite qofnat_S, sumQ_cons, H1, H2, H3. cbn [app fst snd].
+    repeat split; ring.
+Qed.
+Lemma form_add_k f g : f_k (fadd f g) = f_k f + f_k g. Proof. reflexivity. Qed.
+Lemma form_add_logs f g : f_logs (fadd f g) = f_logs f ++ f_logs g. Proof. reflexivity. Qed.
+
+(* BinaryNormalizedEntropy: weights and positives of a task row are plain sums *)
+Lemma ne_row_counts l xs ts ws : snd (fst (ne_row l xs ts ws)) = sumQ ws /\ snd (ne_row l xs ts ws) = sumQ (map2 Qcmult ws ts).
+Proof. split; reflexivity. Qed.
+(* one sample's cross entropy (probabilities strictly inside (0,1)):  -w t ln p - w (1-t) ln (1-p) *)
+Lemma ne_term_prob x t w : x <> 0 -> 1 - x <> 0 -> w * t <> 0 -> w * (1 - t) <> 0 ->
+  ne_term false x t w = {| f_k := 0 + 0; f_logs := [(- (w * t), vq x); (- (w * (1 - t)), vq (1 - x))] |}.
+Proof.
+  intros Hx Hx1 H1 H2. unfold ne_term, clamp_log.
+  assert (E1 : qeq (- (w * t)) 0 = false).
+  { destruct (qeq (- (w * t)) 0) eqn:E; [|reflexivity]. apply qeq_iff in E. exfalso. apply H1.
+    rewrite <- (Qcopp_involutive (w * t)), E. reflexivity. }
+  assert (E2 : qeq (- (w * (1 - t))) 0 = false).
+  { destruct (qeq (- (w * (1 - t))) 0) eqn:E; [|reflexivity]. apply qeq_iff in E. exfalso. apply H2.
+    rewrite <- (Qcopp_involutive (w * (1 - t))), E. reflexivity. }
+  assert (E3 : qeq x 0 = false) by (destruct (qeq x 0) eqn:E; [apply qeq_iff in E; congruence|reflexivity]).
+  assert (E4 : qeq (1 - x) 0 = false) by (destruct (qeq (1 - x) 0) eqn:E; [apply qeq_iff in E; congruence|reflexivity]).
+  rewrite E1, E2, E3, E4. reflexivity.
+Qed.
